@@ -77,7 +77,7 @@ func genCase(t *rapid.T) Case {
 				r.AbandonMidBody, r.Chunked, r.LatencyMs = true, true, 0
 				// the backend sends all but the last MidBodyTail bytes, pauses, and then sends the tail and the trailers
 				r.RespSize = rapid.SampledFrom([]int{16384, 8192, 40000, 300000}).Draw(t, "midBodyFirst")
-				r.MidBodyTail = rapid.SampledFrom([]int{6000, 3000, 20000, 1}).Draw(t, "midBodyTail")
+				r.MidBodyTail = rapid.SampledFrom([]int{20000, 8192, 65536}).Draw(t, "midBodyTail")
 				r.RespSize += r.MidBodyTail
 			}
 		}
@@ -215,14 +215,16 @@ func runOnce(t vh.TB, c *Case, mult int) vh.Outcome {
 				if c, err := net.DialTimeout("tcp", e.Stack.ProxyAddr, 5*time.Second); err == nil {
 					c.Write(b.Bytes())
 					if r.AbandonMidBody {
-						// leave as soon as the first bytes of the body are there
+						// leave once everything the backend sends before its pause is there (the tail and the trailers follow
+						// 150 ms later): relaying the tail then fails on the proxy's last write to this client
 						c.SetReadDeadline(time.Now().Add(20 * time.Second))
-						var got []byte
-						buf := make([]byte, 4096)
-						for {
+						want := r.RespSize - r.MidBodyTail
+						got := 0
+						buf := make([]byte, 32768)
+						for got < want {
 							n, rerr := c.Read(buf)
-							got = append(got, buf[:n]...)
-							if i := bytes.Index(got, []byte("\r\n\r\n")); (i >= 0 && len(got) > i+4+8) || rerr != nil {
+							got += n
+							if rerr != nil {
 								break
 							}
 						}
